@@ -212,6 +212,146 @@ def lp_items(pid, tier, seed):
             add("HR (2,3),(3,2) two-sided x P x pc x stab x {none, defaults}",
                 I.family_HR(True, sizes=I.HR_SIZES[6:]),
                 lambda i: optvecs(True, ALL4, none + defaults))
+    elif pid == "C05":
+        st = ((False, True), (True, True))
+        sizecrit = none + [[("maxsize", ())], [("minsize", ())]]
+        add("A two-sided x P x pc x -stab x {none,maxsize,minsize}",
+            with_profiles(structs_small(True, I.SIZES_A, (1, 2))),
+            lambda i: optvecs(True, st, sizecrit))
+        add("L two-sided x P3 x pc x -stab x {none}",
+            with_profiles(structs_small(True, I.SIZES_A, (3,)), P3),
+            lambda i: optvecs(True, st, none))
+        add("Q[0,2,3] full quotas x pc x -stab x {none}",
+            q_family(True, (0, 2, 3)),
+            lambda i: optvecs(True, st, none))
+        add("HR two-sided x P x pc x -stab x {none,maxsize,minsize}",
+            I.family_HR(True, sizes=I.HR_SIZES[:6]),
+            lambda i: optvecs(True, st, sizecrit))
+        if thorough:
+            add("B two-sided x P4 x pc x -stab x {none,maxsize,minsize}",
+                I.family_B(True), lambda i: optvecs(True, st, sizecrit))
+            add("C 3x3 restricted x P3 x pc x -stab x {none,maxsize}",
+                I.family_C(True),
+                lambda i: optvecs(True, st, none + [[("maxsize", ())]]))
+            add("Q[1,4,5] full quotas x pc x -stab x {none}",
+                q_family(True, (1, 4, 5)), lambda i: optvecs(True, st, none))
+            add("L two-sided x P x pc x -stab x {none,maxsize,minsize}",
+                with_profiles(structs_small(True, I.SIZES_A, (3,))),
+                lambda i: optvecs(True, st, sizecrit))
+            add("HR (2,3),(3,2) two-sided x P x pc x -stab x {none,maxsize,minsize}",
+                I.family_HR(True, sizes=I.HR_SIZES[6:]),
+                lambda i: optvecs(True, st, sizecrit))
+    elif pid == "C03":
+        P2 = ("unit", "cap2")
+        add("A(ns+np<=3), nl<=3, two-sided x P x (0,0) x all singles with all argument vectors; (1,1),(0,1) x default singles",
+            with_profiles(structs_small(True, TINY, (1, 2, 3))),
+            lambda i: optvecs(True, ((False, False),), singles_for(i, True)) +
+            optvecs(True, ((True, True), (False, True)), defaults))
+        add("A(2,2) two-sided x {unit,cap2,lectight} x (0,0) x singles (b>0 variants)",
+            with_profiles(structs_small(True, MID, (1, 2)), P4 if thorough else P3),
+            lambda i: optvecs(True, ALL4 if thorough else ((False, False),),
+                              singles_for(i, thorough), also_without_twopl=thorough))
+        add("A(1,3),(3,1) two-sided x {unit,cap2} x (0,0) x all singles with all argument vectors (gen/gre cut-offs up to R=3)",
+            with_profiles(structs_small(True, LONG, (1, 2)), P4 if thorough else P2),
+            lambda i: optvecs(True, DIAG2 if thorough else ((False, False),),
+                              singles_for(i, True)))
+        add("A one-sided x P4 x (0,0) x 9 default singles; pc x {maxsize,mincost}",
+            with_profiles(structs_small(False, I.SIZES_A, (1, 2)), P4),
+            lambda i: optvecs(False, ((False, False),), defaults) +
+            optvecs(False, ((True, False),), [[("maxsize", ())], [("mincost", ())]]))
+        add("Q[2,0] full quotas x (0,0) x {lmb,lsb,mincostlsb 1 1,mincostlsb 1 2,mincost 1 1}",
+            q_family(True, (2, 0)),
+            lambda i: optvecs(True, ((False, False),),
+                              [[("lmb", ())], [("lsb", ())],
+                               [("mincostlsb", (1, 1))], [("mincostlsb", (1, 2))],
+                               [("mincost", (1, 1))]]))
+        add("HR two-sided x P x (0,0),(1,1) x {9 default singles, mincost 1 1, minsqcost 0 1, gre 1}",
+            I.family_HR(True, sizes=I.HR_SIZES[:6]),
+            lambda i: optvecs(True, DIAG2, defaults +
+                              [[("mincost", (1, 1))], [("minsqcost", (0, 1))],
+                               [("gre", (1,))]]))
+        if thorough:
+            add("A two-sided without -twopl x P3 x (0,0) x singles b>0",
+                with_profiles(structs_small(True, I.SIZES_A, (1, 2)), P3),
+                lambda i: optvecs(False, ((False, False),),
+                                  [[("mincost", (1, 1))], [("minsqcost", (1, 2))],
+                                   [("mincostlsb", (1, 1))]]))
+            add("L two-sided x P x (0,0),(1,1) x singles",
+                with_profiles(structs_small(True, I.SIZES_A, (3,))),
+                lambda i: optvecs(True, DIAG2, singles_for(i, False)))
+            add("B two-sided x {unit,cap2} x (0,0) x 9 default singles + gen/gre cut-offs",
+                I.family_B(True, profiles=P2),
+                lambda i: optvecs(True, ((False, False),), defaults +
+                                  [[("gen", (2,))], [("gre", (1,))], [("gre", (2,))],
+                                   [("mincost", (1, 1))]]))
+            add("Q all structs x (0,0) x load criteria",
+                q_family(True, (1, 3, 4, 5)),
+                lambda i: optvecs(True, ((False, False),),
+                                  [[("lmb", ())], [("lsb", ())], [("mincostlsb", (1, 1))]]))
+            add("HR (2,3),(3,2) two-sided x {unit,cap2} x (0,0),(1,1) x defaults",
+                [x for x in I.family_HR(True, sizes=I.HR_SIZES[6:])
+                 if x.pq[0] in ((0, 1), (0, 2)) and len(set(x.pq)) == 1],
+                lambda i: optvecs(True, DIAG2, defaults))
+
+    elif pid == "C04":
+        P2 = ("unit", "cap2")
+        qs = [I.make3(ns, np_, nl, sp, le, lp, pq, lq3)
+              for (ns, np_, nl, sp, le, lp) in I.Q_STRUCTS
+              for _, pq, lq3 in I.quota_profiles3(ns, np_, nl, le)]
+        sel = [("maxsize", "mincost"), ("mincost", "maxsize"), ("maxsize", "gen"),
+               ("gen", "maxsize"), ("maxsize", "gre"), ("gre", "gen"),
+               ("lsb", "maxsize"), ("maxsize", "lsb"), ("minsize", "gre"),
+               ("lmb", "mincost"), ("mincostlsb", "maxsize"), ("minsqcost", "maxsize"),
+               ("gre", "minsize"), ("lmb", "lsb"), ("lsb", "lmb"), ("mincost", "minsqcost")]
+        selpairs = [[(a, ()), (b, ())] for a, b in sel]
+
+        def gapped(i):
+            # positions with gaps, flags given in the reverse of position order
+            out = []
+            for a, b in pairs:
+                out.append((True, False, False, (b, a), (7, 3)))
+            return out
+
+        add("Q-structs x P x (0,0),(1,1) x all 72 ordered pairs",
+            qs, lambda i: optvecs(True, DIAG2, pairs))
+        add("Q-structs x P x (0,0) x all 72 ordered pairs at positions (3,7), flags in reverse order",
+            qs, gapped)
+        add("A(ns+np<=3), nl<=2, two-sided x P x (0,0) x all 72 ordered pairs",
+            with_profiles(structs_small(True, TINY, (1, 2))),
+            lambda i: optvecs(True, ((False, False),), pairs))
+        add("A(2,2) two-sided x {unit,cap2} x (0,0) x 16 conflict-prone pairs",
+            with_profiles(structs_small(True, MID, (1, 2)), P2),
+            lambda i: optvecs(True, ((False, False),), selpairs))
+        add("A(1,3),(3,1) two-sided x {unit,cap2} x (0,0) x 16 conflict-prone pairs",
+            with_profiles(structs_small(True, LONG, (1, 2)), P2),
+            lambda i: optvecs(True, ((False, False),), selpairs))
+        argpairs = [[("mincost", (1, 1)), ("mincostlsb", (1, 2))],
+                    [("mincostlsb", (2, 1)), ("lsb", ())],
+                    [("gen", (2,)), ("gre", (1,))],
+                    [("gre", (1,)), ("gen", (2,))],
+                    [("minsqcost", (1, 1)), ("mincost", (1, 0))],
+                    [("lmb", ()), ("mincostlsb", (0, 1))]]
+        add("Q-structs x P x (0,0),(1,1) x 6 pairs with argument variants",
+            [q for q in qs if ref.R(q) >= 2],
+            lambda i: optvecs(True, DIAG2, argpairs))
+        if thorough:
+            six = ("maxsize", "gen", "gre", "mincost", "lsb", "mincostlsb")
+            triples = [[(a, ()), (b, ()), (c, ())] for a in six for b in six
+                       for c in six if len({a, b, c}) == 3]
+            add("Q-structs x P x (0,0) x 120 ordered triples",
+                qs, lambda i: optvecs(True, ((False, False),), triples))
+            add("A(ns+np<=3) two-sided x P3 x (0,0) x 120 ordered triples",
+                with_profiles(structs_small(True, TINY, (1, 2)), P3),
+                lambda i: optvecs(True, ((False, False),), triples))
+            add("A(2,2) two-sided x P4 x (0,0),(1,1) x all 72 ordered pairs",
+                with_profiles(structs_small(True, MID, (1, 2)), P4),
+                lambda i: optvecs(True, DIAG2, pairs))
+            add("B two-sided x {unit,cap2} x (0,0) x 12 pairs",
+                I.family_B(True, profiles=P2),
+                lambda i: optvecs(True, ((False, False),), selpairs[:12]))
+            add("L two-sided x P3 x (0,0) x 16 pairs",
+                with_profiles(structs_small(True, I.SIZES_A, (3,)), P3),
+                lambda i: optvecs(True, ((False, False),), selpairs))
     else:
         raise ValueError(pid)
 
